@@ -25,7 +25,7 @@ claim('C17', 'proof', 'ground obligations: exhaustive (table, name, value) compa
       'registries are trusted transcriptions (hashes in registry/*.json); names known to no registry are reported as unchecked; derived tables checked as functions of their sources')
 claim('C14', 'proof', K1 + '; ' + K2,
       'note walk iter_notes proved against notes_spec by step refinement (offsets, sizes, raw descriptor, termination, exhaustion of the extent) for all inputs; all note/stab structs (Nhdr, abi, Prop incl. closures, Prpsinfo, Nt_File, Stabs) K2-checked over every (class, byte order, machine, OS ABI, file type)',
-      'descriptor decoding per note type relies on struct_parse = Sem(layout) (K2) ; property-list elements and StabSection.iter_stabs not yet under K1 contract; Sem of construct node kinds assumed (DESIGN 2.8)')
+      'descriptor decoding per note type relies on struct_parse = Sem(layout) (K2); property-list elements not under K1 contract; StabSection.iter_stabs is under contract; Sem of construct node kinds assumed (DESIGN 2.8)')
 claim('C16', 'proof', K1 + '; ' + K2,
       'ULEB128._parse and SLEB128._parse proved equal to the standard value (sign extension for any length) and length for every byte string (loop invariant, variant, raises-iff-truncated); UBInt24/ULInt24, the initial-length adapter (32/64-bit escape, reserved values), roundup proved; struct_parse is executed from its real body at every call site; every fixed-width primitive factory of ELFStructs/DWARFStructs and the initial-length struct K2-checked in every configuration',
       'struct.Struct.unpack assumed to be the two\'s-complement reader of standard sizes; construct\'s FormatField/CString/PrefixedArray node semantics assumed (Sem, DESIGN 2.8)')
@@ -42,15 +42,15 @@ claim('C03', 'proof', K1 + '; ' + K2 + '; ' + BD,
 claim('C08', 'proof', K1 + '; ' + K2 + '; ' + GR + '; ' + BD,
       'Elf_Rel/Rela/Relr incl. MIPS64 layout and r_info lambdas K2 (lambdas proved by z3); relocation table addressing; RELR expansion proved by step refinement (anchor/bitmap/base advance); every supported (machine, type) recipe: width, addend source, and calc function proved equal to the psABI formula for all operands',
       '_do_apply_relocation / find_relocations_for_section / apply_section_relocations are not under K1 contract: covered by a bounded differential (objects written by an independent ELF writer for every supported (machine, type), result compared with the ABI formula); MIPS RELA in-place addend is a recorded known finding')
-claim('C09', 'proof', K1 + '; ' + K2,
+claim('C09', 'proof', K1 + '; ' + K2 + '; ' + BD,
       'Elf_Dyn K2 incl. machine/OS specific tag tables; raw tag addressing, walk to DT_NULL (with termination variant), table pointer lookup (first entry bearing the tag) mapped through loadable segments, string tags through the dynamic string table, tag count; GNU/SysV symbol count',
-      '_get_stringtable assumed; DynamicSegment.num_symbols fallback path / get_symbol / constructors and section-vs-segment relational lemma not yet under contract')
-claim('C13', 'proof', K1 + '; ' + K2,
+      '_get_stringtable assumed; get_relocation_tables, iter_tags (DynamicTag construction over the walk), DynamicSegment.num_symbols fallback path / get_symbol / constructors are not under K1 contract: covered by the bounded differential of section-less images (independent ELF writer: PT_LOAD + PT_DYNAMIC, string/symbol/hash/REL/RELA/JMPREL tables)')
+claim('C13', 'proof', K1 + '; ' + K2 + '; ' + BD,
       'aranges set parsing (alignment, tuple walk to the (0,0) terminator, appended entries), bisect lookup under disjointness, unit cache representation invariant with RI-preserving interference at yields, offset-exact and containing lookups; headers K2',
-      'NameLUT parsing not yet under contract; _parse_CU_at_offset is checked (unit header layout K2, DWARFStructs construction modelled); float ceil exact below 2^53; 32-bit DWARF sets')
+      'NameLUT is not under K1 contract (string-keyed dictionary built in a nested loop): covered by the bounded name-table differential (UTF-8 names, several sets); _parse_CU_at_offset is checked (unit header layout K2, DWARFStructs construction modelled); float ceil exact below 2^53; 32-bit DWARF sets; disjoint ranges assumed for the lookup')
 claim('C15', 'proof', K1 + '; ' + K2,
       'version records K2; entry and auxiliary chains by displacement (recursive offset spec), names via linked string table, requirement names, definition index resolution, versym entries, linked-section validation',
-      'GNUVerNeedSection.get_version / has_indexes nested loops not yet under contract')
+      'GNUVerNeedSection.get_version is under contract (searches every entry and auxiliary); has_indexes not under contract')
 claim('C20', 'proof', K1 + '; ' + K2 + '; ' + GR,
       'prel31; index entry classification and byte-code unpacking (all models, unbounded word loop); byte-code disassembler: every 1- and 2-byte instruction enumerated exhaustively against the EHABI 9.3 table; attribute value kinds per tag (ARM, RISC-V) incl. number lists by loop invariant; subsection and sub-subsection walkers by displacement with interference at yields',
       'ULEB operand of opcode 0xb2 and instruction sequences are bounded stand-ins (reported separately); _make_attributes walker and mnemonic text have no independent oracle')
